@@ -511,7 +511,7 @@ func (c *Ctx) paramAlias(p *ssa.Parameter) (*types.Named, string, bool) {
 // collectAccesses classifies one instruction.
 func (c *Ctx) collectAccesses(fn *ssa.Function, ins ssa.Instruction, must uint64, tb *ir.TB, add func(access)) {
 	mk := func(owner *types.Named, field string, write bool, suffix string) access {
-		a := access{key: owner.Obj().Name() + "." + field + suffix, owner: c.category(owner, c.curveReachCache(), fn), write: write, locks: must, fn: fn, pos: ins.Pos()}
+		a := access{key: owner.Obj().Name() + "." + stableFieldName(owner, field) + suffix, owner: c.category(owner, c.curveReachCache(), fn), write: write, locks: must, fn: fn, pos: ins.Pos()}
 		if _, shared := c.globalHeldFields(tb)[owner.Obj().Name()+"."+field]; shared && suffix == "[]" {
 			a.owner = "global" // the object behind this field may be a package-level one shared by all instances
 		}
@@ -724,7 +724,7 @@ func (c *Ctx) reflectiveReads(n *types.Named, fn *ssa.Function, ins ssa.Instruct
 		if tag := reflect.StructTag(st.Tag(i)).Get("json"); tag == "-" {
 			continue
 		}
-		a := access{key: n.Obj().Name() + "." + f.Name(), owner: c.category(n, c.curveReachCache(), fn), write: false, locks: 0, fn: fn, pos: ins.Pos(), reflect_: true}
+		a := access{key: n.Obj().Name() + "." + stableFieldName(n, f.Name()), owner: c.category(n, c.curveReachCache(), fn), write: false, locks: 0, fn: fn, pos: ins.Pos(), reflect_: true}
 		add(a)
 		ft := f.Type()
 		if p, ok := ft.(*types.Pointer); ok {
@@ -733,7 +733,7 @@ func (c *Ctx) reflectiveReads(n *types.Named, fn *ssa.Function, ins ssa.Instruct
 		switch x := ft.(type) {
 		case *types.Map:
 			m := a
-			m.key = n.Obj().Name() + "." + f.Name() + "[]"
+			m.key = n.Obj().Name() + "." + stableFieldName(n, f.Name()) + "[]"
 			m.mapIter = true
 			add(m)
 		case *types.Named:
@@ -744,10 +744,36 @@ func (c *Ctx) reflectiveReads(n *types.Named, fn *ssa.Function, ins ssa.Instruct
 			if m, ok := ft.Underlying().(*types.Map); ok {
 				_ = m
 				mm := a
-				mm.key = n.Obj().Name() + "." + f.Name() + "[]"
+				mm.key = n.Obj().Name() + "." + stableFieldName(n, f.Name()) + "[]"
 				mm.mapIter = true
 				add(mm)
 			}
 		}
 	}
+}
+
+// stableFieldName: exported fields are identified by name (part of the JSON/API surface); unexported
+// fields by their type and ordinal among the unexported fields of that type, so that renaming a
+// private field does not turn a known finding into a "new" one.
+func stableFieldName(owner *types.Named, field string) string {
+	st, ok := owner.Underlying().(*types.Struct)
+	if !ok {
+		return field
+	}
+	count := map[string]int{}
+	for i := 0; i < st.NumFields(); i++ {
+		f := st.Field(i)
+		if f.Exported() {
+			if f.Name() == field {
+				return field
+			}
+			continue
+		}
+		ts := types.TypeString(f.Type(), func(p *types.Package) string { return p.Name() })
+		count[ts]++
+		if f.Name() == field {
+			return sprintf("(unexported %s #%d)", ts, count[ts])
+		}
+	}
+	return field
 }
